@@ -416,6 +416,23 @@ pub fn scale_family(kind: &str, n: usize) -> Shape {
             t = n as u64 + 3;
             m = 2 * n as u64 + 2;
         }
+        "array-nesting-1" | "array-nesting-1-vertex-and-override" => {
+            // one-element arrays nested n deep (the size stays 16 bytes however deep): as a struct member of a storage
+            // variable, as the type of a private variable and of a function-local value
+            let mut ty = "vec4<f32>".to_string();
+            for _ in 0..n {
+                ty = format!("array<{ty}, 1>");
+            }
+            src.push_str(&format!("struct Deep1 {{ a: {ty}, tail: vec4<f32> }};\n@group(0) @binding(0) var<storage, read> deep1: Deep1;\nvar<private> deep_p: {ty};\n"));
+            if kind.ends_with("override") {
+                src.push_str("struct VIn { @location(0) p: vec4<f32> };\noverride scale: f32 = 1.0;\n@vertex fn vs_main(v: VIn) -> @builtin(position) vec4<f32> { return v.p * scale + deep1.tail; }\n");
+                e = 2;
+            }
+            src.push_str("@compute @workgroup_size(1) fn cs_main() { }\n");
+            g = 2;
+            t = n as u64 + 4;
+            m = 2 * n as u64 + 4;
+        }
         _ => unreachable!(),
     }
     Shape { key: format!("scale|{kind}|n={n}"), src, e, f, c, g, t, m, helpers_reachable: false }
@@ -662,6 +679,8 @@ pub fn scale_cases() -> Vec<(&'static str, usize)> {
         ("fragment-output-members-desc", vec![8, 32, 64]),
         ("vertex-input-members", vec![8, 32, 64]),
         ("groups-bindings-mixed", vec![64, 400]),
+        ("array-nesting-1", vec![8, 24, 40, 60]),
+        ("array-nesting-1-vertex-and-override", vec![30]),
         ("stmt-else-if-chain", vec![24, 48]),
         ("stmt-nested-else", vec![24, 48]),
         ("stmt-nested-if", vec![48]),
@@ -861,7 +880,7 @@ pub fn run(tier: &str) -> i32 {
     rep.set("scale_families", json!(scale_report));
     rep.set("wall_clock_children", json!(wall));
     rep.traces_validated = rep.evaluations;
-    rep.rule = format!("(1) every tile: DAG on <= {} helpers with each forward edge in {{absent, 1 statement call, 1 value call, 2 statement calls, 2 value calls, 1+1 mixed}}, composed {}x in series; (2) chain / diamond / 3-fold fan-in / fan-out families at depths {:?} with every call form at every placement context, plus 4-entry and 290-function members; (3) nested two-/three-member struct types to depth 24/40, wide structs, many variables sharing one type; (3b) statement shapes in one function (else-if chains, nested if / else / loop / for / switch / blocks, mixed) at sizes up to 60 under 1 and 3 entry points, block visits <= 8*E*(B+1) from the walk:block hook; (4) size families: up to 1000 bindings / 1000 members / 300 structs / 64 vertex entries x 12 structs / 200 entry points sharing helpers / 300 consts+overrides / arrays nested 16 deep, each under 2 s. Oracle: walk:function visits <= 8*E*(F+C+1), walk:type visits <= 8*G*(T+M+1) (hook aborts at the budget); wall clock of amplified members in child processes <= max(2 s, 200 x same-size flat shader).", 4, if thorough { 16 } else { 8 }, if thorough { vec![8, 16, 32, 64] } else { vec![16, 64] });
+    rep.rule = format!("(1) every tile: DAG on <= {} helpers with each forward edge in {{absent, 1 statement call, 1 value call, 2 statement calls, 2 value calls, 1+1 mixed}}, composed {}x in series; (2) chain / diamond / 3-fold fan-in / fan-out families at depths {:?} with every call form at every placement context, plus 4-entry and 290-function members; (3) nested two-/three-member struct types to depth 24/40, wide structs, many variables sharing one type; (3b) statement shapes in one function (else-if chains, nested if / else / loop / for / switch / blocks, mixed) at sizes up to 60 under 1 and 3 entry points, block visits <= 8*E*(B+1) from the walk:block hook; (4) size families: up to 1000 bindings / 1000 members / 300 structs / 64 vertex entries x 12 structs / 200 entry points sharing helpers / 300 consts+overrides / arrays nested 16 deep (two elements per level) and 60 deep (one element per level), each under 2 s. Oracle: walk:function visits <= 8*E*(F+C+1), walk:type visits <= 8*G*(T+M+1) (hook aborts at the budget); wall clock of amplified members in child processes <= max(2 s, 200 x same-size flat shader).", 4, if thorough { 16 } else { 8 }, if thorough { vec![8, 16, 32, 64] } else { vec![16, 64] });
     rep.assumptions.push("step counts come from the verif-hooks points at the top of the two recursive walks; if a refactor removes them the wall-clock part decides alone".into());
     rep.finish()
 }
